@@ -40,7 +40,7 @@ fn oracle(c: &Case, acc: &mut Acc) -> CaseResult {
             ov.supply_rs = Some(true);
             ov.rs_value = Some(other_pub.clone());
         }
-        build_snow(spec, init, &ov, &Instr::none()).map_err(|x| Fail::new(format!("build {name}: {}", e(&x))))
+        build_snow(spec, init, &ov, &Instr::none()).map_err(|x| Fail::setup(format!("build {name}: {}", e(&x))))
     };
     let mut hi = mk(true)?;
     let mut hr = mk(false)?;
@@ -90,7 +90,7 @@ fn oracle(c: &Case, acc: &mut Acc) -> CaseResult {
         let i_sends = idx % 2 == 0;
         let payload = spec.payload(idx, 4);
         let (w, r) = if i_sends { (&mut hi, &mut hr) } else { (&mut hr, &mut hi) };
-        let msg = hs_write(w, &payload, 65535).map_err(|x| Fail::new(format!("{name}: write {idx}: {}", e(&x))))?;
+        let msg = hs_write(w, &payload, 65535).map_err(|x| Fail::setup(format!("{name}: write {idx}: {}", e(&x))))?;
         if c.variant == 2 && pat.remote_static_arrives_at(!i_sends) == Some(idx) {
             // tamper with the last byte (payload or its tag): the static key field itself decrypts fine
             let mut m = msg.clone();
@@ -108,23 +108,23 @@ fn oracle(c: &Case, acc: &mut Acc) -> CaseResult {
             }
             let _ = &lay;
         }
-        hs_read(r, &msg, 65535).map_err(|x| Fail::new(format!("{name}: read {idx}: {}", e(&x))))?;
+        hs_read(r, &msg, 65535).map_err(|x| Fail::setup(format!("{name}: read {idx}: {}", e(&x))))?;
         check(hi.get_remote_static(), true, idx + 1, &format!("after message {idx}"), acc)?;
         check(hr.get_remote_static(), false, idx + 1, &format!("after message {idx}"), acc)?;
     }
     if c.stateless {
-        let ti = hi.into_stateless_transport_mode().map_err(|x| Fail::new(e(&x)))?;
-        let tr = hr.into_stateless_transport_mode().map_err(|x| Fail::new(e(&x)))?;
+        let ti = hi.into_stateless_transport_mode().map_err(|x| Fail::setup(e(&x)))?;
+        let tr = hr.into_stateless_transport_mode().map_err(|x| Fail::setup(e(&x)))?;
         check(ti.get_remote_static(), true, nm, "after conversion to stateless transport mode", acc)?;
         check(tr.get_remote_static(), false, nm, "after conversion to stateless transport mode", acc)?;
     } else {
-        let mut ti = hi.into_transport_mode().map_err(|x| Fail::new(e(&x)))?;
-        let mut tr = hr.into_transport_mode().map_err(|x| Fail::new(e(&x)))?;
+        let mut ti = hi.into_transport_mode().map_err(|x| Fail::setup(e(&x)))?;
+        let mut tr = hr.into_transport_mode().map_err(|x| Fail::setup(e(&x)))?;
         check(ti.get_remote_static(), true, nm, "after conversion to transport mode", acc)?;
         check(tr.get_remote_static(), false, nm, "after conversion to transport mode", acc)?;
         // still the same after traffic and a rekey
-        let m = t_write(&mut ti, b"x", 32).map_err(|x| Fail::new(e(&x)))?;
-        t_read(&mut tr, &m, 32).map_err(|x| Fail::new(e(&x)))?;
+        let m = t_write(&mut ti, b"x", 32).map_err(|x| Fail::setup(e(&x)))?;
+        t_read(&mut tr, &m, 32).map_err(|x| Fail::setup(e(&x)))?;
         ti.rekey_outgoing();
         check(ti.get_remote_static(), true, nm, "after transport traffic", acc)?;
         check(tr.get_remote_static(), false, nm, "after transport traffic", acc)?;
